@@ -106,6 +106,12 @@ type reverseSorter struct{ sort.Interface }
 func (r reverseSorter) Less(i, j int) bool { return r.Interface.Less(j, i) }
 
 func newEnv(r *simrun.Run, prop string, sequential bool) *env {
+	return newEnvWith(r, prop, sequential, nil)
+}
+
+// newEnvWith is newEnv with a last word on the configuration drawn from the
+// tape (the draws themselves are the same for every caller).
+func newEnvWith(r *simrun.Run, prop string, sequential bool, adjust func(*config)) *env {
 	e := &env{r: r, k: r.K, t: r.T, prop: prop, sequential: sequential}
 	t := e.t
 	// Value 0 of every choice is the plain configuration: case sensitive,
@@ -124,6 +130,9 @@ func newEnv(r *simrun.Run, prop string, sequential bool) *env {
 		if e.cfg.fuseFront = t.Bool(1, 3); e.cfg.fuseFront {
 			e.cfg.nfs = false
 		}
+	}
+	if adjust != nil {
+		adjust(&e.cfg)
 	}
 	e.avoidKnown = strings.Contains(os.Getenv("W7_AVOID"), "createenter-deleted")
 
@@ -238,16 +247,22 @@ func World(prop string) simrun.World {
 	return func(r *simrun.Run) {
 		switch prop {
 		case "C13":
-			// One run in four uses the concurrent callers of the C14 world
+			// Some runs (5 in 48) use the concurrent callers of the C14 world
 			// instead of the sequential driver: listings then overlap
 			// with renames and removals (lock back-off and re-seek inside
 			// VirtualReadDir), and each listing call is checked for going
 			// backwards.
 			//
-			// Two runs in eight use the presence configuration
+			// 10 runs in 48 use the presence configuration
 			// (c13conc.go): concurrent callers under an oracle that knows
 			// which names are certainly bound or unbound during a call.
-			choice := r.T.Choice(8)
+			//
+			// One run in six uses the linearizability configuration
+			// (c13lin.go): a short concurrent history whose every answer is
+			// recorded and checked against the sequential model by
+			// porcupine. (Values 0-7 mean what they meant when this was
+			// Choice(8), so older replay files keep their configuration.)
+			choice := r.T.Weighted([]int{5, 5, 5, 5, 5, 5, 5, 5, 8})
 			switch os.Getenv("W7_C13") { // for experiments and triage only
 			case "callers":
 				choice = 0
@@ -255,12 +270,16 @@ func World(prop string) simrun.World {
 				choice = 1
 			case "sequential":
 				choice = 3
+			case "linearizable":
+				choice = 8
 			}
 			switch choice {
 			case 0:
 				runC14(r)
 			case 1, 2:
 				runPresence(r)
+			case 8:
+				runLinearizable(r)
 			default:
 				runC13(r)
 			}
